@@ -428,6 +428,33 @@ func main() {
 		rec(nil)
 	}
 
+	// ---- (3a) an ID always follows the content: modify an initialised transaction / header and initialise again ----
+	for k := 0; k < 8; k++ {
+		t := txSeed(k)
+		t.Init()
+		first := append([]byte{}, t.ID...)
+		t.Nonce += 1000
+		t.Fee += 7
+		t.Init()
+		evals++
+		want := sha256.Sum256(t.Encode())
+		if !bytes.Equal(t.ID, want[:]) {
+			viol("tx-id-not-hash-of-encoding-after-reinit", fmt.Sprintf("transaction modified after Init and initialised again: ID %x is not the hash of its encoding (stale ID kept: %v)", t.ID[:4], bytes.Equal(t.ID, first)), caseT{Type: "Transaction"})
+		}
+		re, err := blockchain.NewTransaction(t.Encode())
+		if err != nil || !bytes.Equal(re.ID, want[:]) {
+			viol("tx-id-changes-on-re-encode", fmt.Sprintf("decoding the encoding of a re-initialised transaction gives another ID (%v)", err), caseT{Type: "Transaction"})
+		}
+		// a transaction arriving as JSON with an id member (postTransaction): the id must still be derived
+		t2 := txSeed(k)
+		t2.ID = bytes.Repeat([]byte{0xAB}, 32)
+		t2.Init()
+		evals++
+		w2 := sha256.Sum256(t2.Encode())
+		if !bytes.Equal(t2.ID, w2[:]) {
+			viol("tx-id-not-hash-of-encoding-preset-id", "Init keeps a 32-byte ID that was already present instead of hashing the encoding", caseT{Type: "Transaction"})
+		}
+	}
 	// ---- (3) IDs are stable under store/load and re-encoding ----
 	{
 		d, _ := db.NewInMemoryDB()
